@@ -6,5 +6,6 @@ MCFile == {"F1", "F2", "F4"}
 MCData == [f \in MCFile |-> CASE f = "F1" -> <<"X", "Y">> [] f = "F2" -> <<"X", "Y", "Z">> [] f = "F4" -> <<"Z", "Z">>]
 MCOther == [f \in MCFile |-> CASE f = "F1" -> {"r1", "ms"} [] f = "F2" -> {"r2", "ms"} [] f = "F4" -> {"r4", "ms"}]
 MCCaps == {1, 4}
+MCSplit == [f \in MCFile |-> Len(MCData[f])]
 \* bound the counters (repeated pins through the service are idempotent in the design, so nothing grows)
 =============================================================================
